@@ -675,9 +675,10 @@ Definition pstring (s : bytes) : option (bytes * bytes) :=
   | None => None
   end.
 
-Definition lit_true : bytes := [116; 114; 117; 101].
-Definition lit_false : bytes := [102; 97; 108; 115; 101].
-Definition lit_null : bytes := [110; 117; 108; 108].
+(* what follows the first byte of true / false / null *)
+Definition lit_rue : bytes := [114; 117; 101].
+Definition lit_alse : bytes := [97; 108; 115; 101].
+Definition lit_ull : bytes := [117; 108; 108].
 
 Fixpoint pv (fuel : nat) (s : bytes) : option (jv * bytes) :=
   match fuel with
@@ -700,9 +701,9 @@ Fixpoint pv (fuel : nat) (s : bytes) : option (jv * bytes) :=
             match pstring r with Some (t, r') => Some (JStr t, r') | None => None end
           else if (b =? 45) || is_digit b then
             match pnum (b :: r) with Some (n, r') => Some (JNum n, r') | None => None end
-          else if has_prefix lit_true (b :: r) then Some (JTrue, skipn 4 (b :: r))
-          else if has_prefix lit_false (b :: r) then Some (JFalse, skipn 5 (b :: r))
-          else if has_prefix lit_null (b :: r) then Some (JNull, skipn 4 (b :: r))
+          else if b =? 116 then if has_prefix lit_rue r then Some (JTrue, skipn 3 r) else None
+          else if b =? 102 then if has_prefix lit_alse r then Some (JFalse, skipn 4 r) else None
+          else if b =? 110 then if has_prefix lit_ull r then Some (JNull, skipn 3 r) else None
           else None
       end
   end
@@ -833,6 +834,15 @@ Definition float_okb (f : fval) : bool :=
       end
   | None => false
   end.
+
+(* guard of the round-trip theorem: what the Go types and the float assumption provide, plus
+   directory names that are valid UTF-8 (encoding/json replaces invalid bytes by U+FFFD:
+   see C20_invalid_utf8_refuted) *)
+Definition storable (c : config) : bool :=
+  in_range c &&
+  utf8_valid (length (c_wal_dir c)) (c_wal_dir c) &&
+  utf8_valid (length (c_sst_dir c)) (c_sst_dir c) &&
+  float_okb (c_compaction_ratio c).
 
 (* one object member stored into the struct; the flag records a saved UnmarshalTypeError *)
 Definition apply_member (st : config * bool) (kv : bytes * jv) : config * bool :=
